@@ -148,57 +148,160 @@ PROPS = {
                         "evaluated on every EXPR request (field rt) and by the predicate on the Go code, not proved"],
     },
     "C01": {
-        "module": "MF.Props.C01Tables",
-        "module_extra": ["MF.Props.C01Expr"],
-        "theorems": ["MF.Props.C01.gen_unread", "MF.Props.C01.gen_unread_matches_extractor", "MF.Props.C01.gen_prec_eq_spec", "MF.Props.C01.gen_parenCmp", "MF.Props.C01.gen_precConsts", "MF.Props.C01.exprPrec_covers_ops",
-                     "MF.Props.C01.printed_lexes", "MF.Props.C01.printed_lexes_tokens", "MF.Props.C01.parse_lexwf", "MF.Props.C01.roundtrip_expr_partial",
-                     "MF.Props.C01.fixed_point_expr", "MF.Props.C01.roundtrip_fails_quoted_cast_word", "MF.Props.C01.numOK_lexes",
-                     "MF.Props.C01.concat_lexes", "MF.Props.C01.concat_steps", "MF.Props.C01.steps_prefix", "MF.Props.C01.next_append"],
-        "channels": ["TREE", "EXPR"],
+        "module": 'MF.Props.C01Tables',
+        "module_extra": ['MF.Props.C01Expr', 'MF.Props.C01Types'],
+        "theorems": ['MF.Props.C01.gen_unread',
+            'MF.Props.C01.gen_unread_matches_extractor',
+            'MF.Props.C01.gen_prec_eq_spec',
+            'MF.Props.C01.gen_parenCmp',
+            'MF.Props.C01.gen_precConsts',
+            'MF.Props.C01.exprPrec_covers_ops',
+            'MF.Props.C01.printed_lexes',
+            'MF.Props.C01.printed_lexes_tokens',
+            'MF.Props.C01.parse_lexwf',
+            'MF.Props.C01.roundtrip_expr_partial',
+            'MF.Props.C01.fixed_point_expr',
+            'MF.Props.C01.roundtrip_fails_quoted_cast_word',
+            'MF.Props.C01.numOK_lexes',
+            'MF.Props.C01.concat_lexes',
+            'MF.Props.C01.concat_steps',
+            'MF.Props.C01.steps_prefix',
+            'MF.Props.C01.next_append',
+            'MF.Props.C01.type_roundtrip',
+            'MF.Props.C01.type_roundtrip_tree',
+            'MF.Props.C01.type_roundtrip_tokens',
+            'MF.Props.C01.print_lexes',
+            'MF.Props.C01.parsed_namesOK',
+            'MF.Props.C01.type_roundtrip_partial',
+            'MF.Props.C01.ex2_parse',
+            'MF.Props.C01.ex2_rt'],
+        "channels": ['TREE', 'EXPR', 'TYPE'],
         "pred": True,
-        "level": "proof",
-        "trusted_base": M0_TRUST + ["hand-written model MF/Model/Expr.lean of parseExpr..parseLit and of the SQL() methods of the expression nodes (EXPR channel); specification MF/Spec/Precedence.lean, MF/Spec/PrintToks.lean", "no Lean model of the other productions of parser.go: the predicate runs the real entry points; table obligations over the regenerated sql.go/ast.go tables (unread fields, precedence table)"],
-        "assumptions": ["proved for the expression fragment M1 (atoms, parentheses, prefix, binary, comparison-family, postfix operators) at BYTE level, on the models of lexer.go, the expression ladder and the SQL() methods: roundtrip_expr_partial: for every input accepted by the expression model, the SQL() text lexes (printed_lexes: to exactly the printer's tokens) and parses to the same tree; fixed_point_expr: unparse output is a fixed point; hypothesis NoCastIdent (no identifier spelled SAFE_CAST / REPLACE_FIELDS), shown necessary for the model by a kernel-checked counterexample",
-                        "outside the fragment (queries, DDL, DML, calls, CASE, CAST, typed literals, ...): exploration of the real entry points over corpus, probes, the reference grammar G, grafts, edits, mutations and soups (partial)"],
+        "level": 'proof',
+        "trusted_base": ['hand-written model MF/Model/{Basic,Char,Utf8,Token,Lexer,File}.lean of lexer.go, char/*.go, token/{token,keywords,file}.go',
+            'hand-written model MF/Model/Expr.lean of parseExpr..parseLit and of the SQL() methods of the expression nodes (EXPR channel); specification MF/Spec/Precedence.lean, '
+            'MF/Spec/PrintToks.lean',
+            'hand-written model MF/Model/TypeParse.lean of parser.go '
+            'ParseType/parseType/parseSimpleType/parseNamedType/parseArrayType/parseStructType/parseStructTypeFields/parseFieldType/parseCommaSeparatedList (one Lean function per Go function '
+            "and loop; the in-place '>>' split rewrites the head of the token list), of the type nodes of ast/ast.go, ast/pos.go and ast/sql.go; tied to memefish.ParseType by the TYPE "
+            'channel (every field and position, Pos()/End() of every node, SQL(), re-lexing flag rt, slice-and-reparse flag ex)',
+            "specification MF/Spec/TypeGrammar.lean (G_T over token kinds written from the documentation, expansion of '>>' / '<>', yield of a tree, Match, wf), MF/Spec/TypeNodes.lean, "
+            'MF/Spec/TypeShift.lean, MF/Spec/TypeReads.lean; lexer model MF/Model/Lexer.lean (LEX channel)',
+            'no Lean model of the other productions of parser.go: the predicate runs the real entry points; table obligations over the regenerated sql.go/ast.go tables (unread fields, '
+            'precedence table)'],
+        "assumptions": ['proved for the expression fragment M1 (atoms, parentheses, prefix, binary, comparison-family, postfix operators) at BYTE level, on the models of lexer.go, the expression ladder '
+            "and the SQL() methods: roundtrip_expr_partial: for every input accepted by the expression model, the SQL() text lexes (printed_lexes: to exactly the printer's tokens) and parses "
+            'to the same tree; fixed_point_expr: unparse output is a fixed point; hypothesis NoCastIdent (no identifier spelled SAFE_CAST / REPLACE_FIELDS), shown necessary for the model by '
+            'a kernel-checked counterexample',
+            'proved for the ParseType entry point, lexer and parser model (type_roundtrip): for every accepted input, SQL() lexes and parses back to the same tree up to positions and prints '
+            'the same text; also for every hand-built well-formed tree with printable names (type_roundtrip_tree); parser side type_roundtrip_tokens, lexer side print_lexes (piece-by-piece '
+            'lexing of the printed text, MF/Proofs/TypePrint.lean) + parsed_namesOK; the same statement is evaluated on the implementation for every OK request of the TYPE channel (flag rt); '
+            'every other entry point is explored only',
+            'outside the fragment (queries, DDL, DML, calls, CASE, CAST, typed literals, ...): exploration of the real entry points over corpus, probes, the reference grammar G, grafts, '
+            'edits, mutations and soups (partial)'],
     },
     "C02": {
-        "module": "MF.Props.C01Tables",
-        "module_extra": ["MF.Props.C01Expr"],
-        "theorems": ["MF.Props.C01.gen_unread", "MF.Props.C01.gen_unread_matches_extractor", "MF.Props.C01.gen_prec_eq_spec", "MF.Props.C01.gen_parenCmp", "MF.Props.C01.gen_precConsts", "MF.Props.C01.exprPrec_covers_ops",
-                     "MF.Props.C01.lossless_expr", "MF.Props.C01.printed_lexes", "MF.Props.C01.parse_lexwf", "MF.Props.C01.fixed_point_expr"],
-        "channels": ["TREE", "EXPR"],
+        "module": 'MF.Props.C01Tables',
+        "module_extra": ['MF.Props.C01Expr', 'MF.Props.C01Types'],
+        "theorems": ['MF.Props.C01.gen_unread',
+            'MF.Props.C01.gen_unread_matches_extractor',
+            'MF.Props.C01.gen_prec_eq_spec',
+            'MF.Props.C01.gen_parenCmp',
+            'MF.Props.C01.gen_precConsts',
+            'MF.Props.C01.exprPrec_covers_ops',
+            'MF.Props.C01.lossless_expr',
+            'MF.Props.C01.printed_lexes',
+            'MF.Props.C01.parse_lexwf',
+            'MF.Props.C01.fixed_point_expr',
+            'MF.Props.C01.type_lossless',
+            'MF.Props.C01.type_lossless_tokens',
+            'MF.Props.C01.print_lexes',
+            'MF.Props.C01.type_lossless_partial'],
+        "channels": ['TREE', 'EXPR', 'TYPE'],
         "pred": True,
-        "level": "proof",
-        "trusted_base": M0_TRUST + ["hand-written model MF/Model/Expr.lean of parseExpr..parseLit and of the SQL() methods of the expression nodes (EXPR channel); specification MF/Spec/Precedence.lean, MF/Spec/PrintToks.lean", "no Lean model of the other productions of parser.go: the predicate runs the real entry points; table obligations over the regenerated sql.go/ast.go tables (unread fields, precedence table)"],
-        "assumptions": ["proved for the expression fragment M1 (atoms, parentheses, prefix, binary, comparison-family, postfix operators) at BYTE level, on the models of lexer.go, the expression ladder and the SQL() methods: lossless_expr: the significant tokens of the SQL() text are those of the input token by token (keyword case, <>/!=, quoting, trivia erased; a position keyword comes back in canonical spelling); hypothesis NoCastIdent (no identifier spelled SAFE_CAST / REPLACE_FIELDS), shown necessary for the model by a kernel-checked counterexample",
-                        "outside the fragment (queries, DDL, DML, calls, CASE, CAST, typed literals, ...): exploration of the real entry points over corpus, probes, the reference grammar G, grafts, edits, mutations and soups (partial)"],
+        "level": 'proof',
+        "trusted_base": ['hand-written model MF/Model/{Basic,Char,Utf8,Token,Lexer,File}.lean of lexer.go, char/*.go, token/{token,keywords,file}.go',
+            'hand-written model MF/Model/Expr.lean of parseExpr..parseLit and of the SQL() methods of the expression nodes (EXPR channel); specification MF/Spec/Precedence.lean, '
+            'MF/Spec/PrintToks.lean',
+            'hand-written model MF/Model/TypeParse.lean of parser.go '
+            'ParseType/parseType/parseSimpleType/parseNamedType/parseArrayType/parseStructType/parseStructTypeFields/parseFieldType/parseCommaSeparatedList (one Lean function per Go function '
+            "and loop; the in-place '>>' split rewrites the head of the token list), of the type nodes of ast/ast.go, ast/pos.go and ast/sql.go; tied to memefish.ParseType by the TYPE "
+            'channel (every field and position, Pos()/End() of every node, SQL(), re-lexing flag rt, slice-and-reparse flag ex)',
+            "specification MF/Spec/TypeGrammar.lean (G_T over token kinds written from the documentation, expansion of '>>' / '<>', yield of a tree, Match, wf), MF/Spec/TypeNodes.lean, "
+            'MF/Spec/TypeShift.lean, MF/Spec/TypeReads.lean; lexer model MF/Model/Lexer.lean (LEX channel)',
+            'no Lean model of the other productions of parser.go: the predicate runs the real entry points; table obligations over the regenerated sql.go/ast.go tables (unread fields, '
+            'precedence table)'],
+        "assumptions": ['proved for the expression fragment M1 (atoms, parentheses, prefix, binary, comparison-family, postfix operators) at BYTE level, on the models of lexer.go, the expression ladder '
+            'and the SQL() methods: lossless_expr: the significant tokens of the SQL() text are those of the input token by token (keyword case, <>/!=, quoting, trivia erased; a position '
+            'keyword comes back in canonical spelling); hypothesis NoCastIdent (no identifier spelled SAFE_CAST / REPLACE_FIELDS), shown necessary for the model by a kernel-checked '
+            'counterexample',
+            'proved for the ParseType entry point, lexer and parser model (type_lossless): for every accepted input, the tokens of the input and the tokens of SQL() read as the same '
+            "description list (kinds, identifier names unquoted, simple type names up to case, '>>'/'<>' expanded); evaluated on the implementation by flag rt of the TYPE channel; every "
+            'other entry point is explored only',
+            'outside the fragment (queries, DDL, DML, calls, CASE, CAST, typed literals, ...): exploration of the real entry points over corpus, probes, the reference grammar G, grafts, '
+            'edits, mutations and soups (partial)'],
     },
     "C05": {
-        "module": "MF",
-        "theorems": [],
-        "channels": ["TREE"],
+        "module": 'MF.Props.C05Types',
+        "theorems": ['MF.Props.C05.type_positions', 'MF.Props.C05.type_positions_fails_backquoted', 'MF.Props.C05.ex_positions'],
+        "channels": ['TREE', 'TYPE'],
         "pred": True,
-        "level": "exploration",
-        "trusted_base": ["no Lean model of the productions of parser.go outside the lexer: the predicate runs the real entry points"],
-        "assumptions": ["exploration of the implementation over the stated input distribution; Lean obligations for this property are listed in DESIGN.md as pending"],
+        "level": 'proof',
+        "trusted_base": ['hand-written model MF/Model/TypeParse.lean of parser.go '
+            'ParseType/parseType/parseSimpleType/parseNamedType/parseArrayType/parseStructType/parseStructTypeFields/parseFieldType/parseCommaSeparatedList (one Lean function per Go function '
+            "and loop; the in-place '>>' split rewrites the head of the token list), of the type nodes of ast/ast.go, ast/pos.go and ast/sql.go; tied to memefish.ParseType by the TYPE "
+            'channel (every field and position, Pos()/End() of every node, SQL(), re-lexing flag rt, slice-and-reparse flag ex)',
+            "specification MF/Spec/TypeGrammar.lean (G_T over token kinds written from the documentation, expansion of '>>' / '<>', yield of a tree, Match, wf), MF/Spec/TypeNodes.lean, "
+            'MF/Spec/TypeShift.lean, MF/Spec/TypeReads.lean; lexer model MF/Model/Lexer.lean (LEX channel)',
+            'no Lean model of the other productions of parser.go: the predicate runs the real entry points'],
+        "assumptions": ["proved for the ParseType entry point (model lexer + model parser, every accepted input): every node starts and ends on a token boundary ('>>'/'<>' counted as two one-byte "
+            'tokens), is non-empty, in range, and contains its children in order without overlap (type_positions), except for the KNOWN DEFECT of a back-quoted simple type name (End two '
+            'bytes short; type_positions_fails_backquoted proves the exclusion necessary); every other entry point is explored only',
+            'every other entry point and node kind: exploration of the real entry points over corpus, probes, the reference grammar G, grafts, edits, mutations and soups (partial)'],
     },
     "C06": {
-        "module": "MF",
-        "theorems": [],
-        "channels": ["TREE"],
+        "module": 'MF.Props.C06Types',
+        "theorems": ['MF.Props.C06.type_exact', 'MF.Props.C06.slice_lex', 'MF.Props.C06.type_exact_tokens', 'MF.Props.C06.type_exact_partial', 'MF.Props.C06.ex_exact'],
+        "channels": ['TREE', 'TYPE'],
         "pred": True,
-        "level": "exploration",
-        "trusted_base": ["no Lean model of the productions of parser.go outside the lexer: the predicate runs the real entry points"],
-        "assumptions": ["exploration of the implementation over the stated input distribution; Lean obligations for this property are listed in DESIGN.md as pending"],
+        "level": 'proof',
+        "trusted_base": ['hand-written model MF/Model/TypeParse.lean of parser.go '
+            'ParseType/parseType/parseSimpleType/parseNamedType/parseArrayType/parseStructType/parseStructTypeFields/parseFieldType/parseCommaSeparatedList (one Lean function per Go function '
+            "and loop; the in-place '>>' split rewrites the head of the token list), of the type nodes of ast/ast.go, ast/pos.go and ast/sql.go; tied to memefish.ParseType by the TYPE "
+            'channel (every field and position, Pos()/End() of every node, SQL(), re-lexing flag rt, slice-and-reparse flag ex)',
+            "specification MF/Spec/TypeGrammar.lean (G_T over token kinds written from the documentation, expansion of '>>' / '<>', yield of a tree, Match, wf), MF/Spec/TypeNodes.lean, "
+            'MF/Spec/TypeShift.lean, MF/Spec/TypeReads.lean; lexer model MF/Model/Lexer.lean (LEX channel)',
+            'no Lean model of the other productions of parser.go: the predicate runs the real entry points'],
+        "assumptions": ['proved for the ParseType entry point, lexer and parser (type_exact): for every accepted input of the model and every type node n whose subtree has no SimpleType on a back-quoted '
+            'token (the known defect), input[Pos:End] lexes and parses on its own to n with all positions decreased by Pos(); parser side type_exact_tokens, lexer side slice_lex (window '
+            'locality of the lexer model, MF/Proofs/LexWindow.lean); StructField and Ident nodes are excluded (not types); the same statement is evaluated on the implementation for every '
+            'type node of every OK request of the TYPE channel (flag ex); every other entry point is explored only',
+            'every other entry point and node kind: exploration of the real entry points over corpus, probes, the reference grammar G, grafts, edits, mutations and soups (partial)'],
     },
     "C08": {
-        "module": "MF",
-        "theorems": [],
-        "channels": ["TREE"],
+        "module": 'MF.Props.C08Types',
+        "theorems": ['MF.Props.C08.type_sound',
+            'MF.Props.C08.type_sound_top',
+            'MF.Props.C08.type_complete',
+            'MF.Props.C08.type_complete_tree',
+            'MF.Props.C08.type_unique',
+            'MF.Props.C08.fuel_irrelevant',
+            'MF.Props.C08.ex_parse',
+            'MF.Props.C08.ex_typeD'],
+        "channels": ['TREE', 'TYPE'],
         "pred": True,
-        "level": "exploration",
-        "trusted_base": ["no Lean model of the productions of parser.go outside the lexer: the predicate runs the real entry points"],
-        "assumptions": ["exploration of the implementation over the stated input distribution; Lean obligations for this property are listed in DESIGN.md as pending"],
+        "level": 'proof',
+        "trusted_base": ['hand-written model MF/Model/TypeParse.lean of parser.go '
+            'ParseType/parseType/parseSimpleType/parseNamedType/parseArrayType/parseStructType/parseStructTypeFields/parseFieldType/parseCommaSeparatedList (one Lean function per Go function '
+            "and loop; the in-place '>>' split rewrites the head of the token list), of the type nodes of ast/ast.go, ast/pos.go and ast/sql.go; tied to memefish.ParseType by the TYPE "
+            'channel (every field and position, Pos()/End() of every node, SQL(), re-lexing flag rt, slice-and-reparse flag ex)',
+            "specification MF/Spec/TypeGrammar.lean (G_T over token kinds written from the documentation, expansion of '>>' / '<>', yield of a tree, Match, wf), MF/Spec/TypeNodes.lean, "
+            'MF/Spec/TypeShift.lean, MF/Spec/TypeReads.lean; lexer model MF/Model/Lexer.lean (LEX channel)',
+            'no Lean model of the other productions of parser.go: the predicate runs the real entry points'],
+        "assumptions": ['proved for the ParseType entry point (model, every token list): the model accepts exactly the sentences of the documented type grammar G_T and returns the derivation tree '
+            '(type_sound, type_complete with a concrete fuel, type_unique); side condition HeadsOK (memefish rejects a named type whose first path component reads as a simple type name, e.g. '
+            'string.x); every other entry point is explored only',
+            'every other entry point and node kind: exploration of the real entry points over corpus, probes, the reference grammar G, grafts, edits, mutations and soups (partial)'],
     },
     "C09": {
         "module": "MF.Props.C09",
